@@ -68,6 +68,11 @@ CHECKS = {
         'harnesses': [
             {'name': 'Harness_C09_metadata', 'pkg': 'samlsp', 'replay': 'direct', 'must_reach': ['parsed', 'fetched', 'descriptor'], 'validate_reach': False, 'opts': {'panic_is_violation': True, 'K': 2}},
             {'name': 'Harness_C09_inflate', 'pkg': 'saml', 'replay': 'direct', 'must_reach': ['read'], 'opts': {'panic_is_violation': True}, 'validate_reach': False},
+            # decryption of peer-chosen cipher text is part of consuming a response: the C11 harnesses over the real xmlenc code, here for their panics only
+            {'name': 'Harness_C11_padding', 'pkg': 'xmlenc', 'replay': 'direct', 'must_reach': ['returned', 'rejected', 'decrypted'], 'validate_reach': False, 'label_prefix': 'C09',
+             'opts': {'panic_is_violation': True}, 'quick': {'params': {'blocks.max': 2}}, 'thorough': {'params': {'blocks.max': 4}}},
+            {'name': 'Harness_C11_block', 'pkg': 'xmlenc', 'replay': 'direct', 'must_reach': ['returned', 'rejected', 'decrypted'], 'validate_reach': False, 'label_prefix': 'C09',
+             'opts': {'panic_is_violation': True}, 'quick': {'params': {'lengths.all': 0}}, 'thorough': {'params': {'lengths.all': 1}}},
             {'name': 'Harness_C01_encrypted', 'pkg': 'saml', 'replay': 'direct', 'must_reach': ['accepted', 'rejected', 'accepted-by-inner-signature', 'accepted-by-response-signature'], 'validate_labels': ['accepted-by-inner-signature', 'accepted-by-response-signature', 'rejected'], 'label_prefix': 'C09', 'opts': {'K': 1, 'panic_is_violation': True}},
             {'name': 'Harness_C09_artifact_http', 'pkg': 'saml', 'replay': 'direct', 'must_reach': ['accepted', 'rejected'], 'validate_labels': ['accepted', 'rejected'], 'label_prefix': 'C09', 'opts': {'K': 1, 'panic_is_violation': True}},
             {'name': 'Harness_C04_artifact', 'pkg': 'saml', 'replay': 'direct', 'must_reach': ['accepted', 'rejected'], 'validate_labels': ['accepted'], 'label_prefix': 'C09', 'opts': {'time_res': 1000000, 'params': {'artifact.layouts': 0}, 'K': 1, 'panic_is_violation': True}},
@@ -270,7 +275,7 @@ _MORE_NOTES = {
     'C02': _ARTIFACT,
     'C03': ' The flow harness keeps one level of nested status codes.' + _ARTIFACT,
     'C04': _ARTIFACT,
-    'C09': ' Harness_C01_encrypted (decryption path) is included.' + _ARTIFACT,
+    'C09': ' Harness_C01_encrypted (decryption path) is included. The xmlenc padding / block harnesses of C11 (real CBC and GCM decryption of peer-chosen cipher text, every registered block cipher) are also run here, for their panics only.' + _ARTIFACT,
     'C05': ' The request is validated both as a bare value and as received over HTTP (HTTPRequest set, Host header one of three names, concrete SSO URL).',
     'C08': ' SP side: Harness_C01_encrypted (see C01) decides that a decrypted assertion gets exactly the signature checks of a plaintext one and that ciphertext for another key is rejected.',
     'C10': ' Harness_C10_direct / _transport: every block cipher and every RSA key transport (digest variants) round-trips through the real Encrypt/Decrypt under symbolic crypto (inverse law keyed by key, hash and label).',
